@@ -1,5 +1,6 @@
 import PyhfModel.Prob
 import PyhfProofs.Lemmas.RealPrim
+import PyhfProofs.Lemmas.FwdErr
 import Mathlib.Probability.Distributions.Poisson.Basic
 import Mathlib.Probability.Distributions.Gaussian.Real
 import Mathlib.Analysis.SpecialFunctions.Gamma.Basic
@@ -72,5 +73,51 @@ theorem normal_logpdf_exact (x mu : ℝ) (sigma : NNReal) (hs : 0 < sigma) :
 /-- the non-log Poisson variant is the exponential of the log variant -/
 theorem nonlog_eq_exp_log (n lam : ℝ) :
     poissonPdf realPrim lgammaR n lam = Real.exp (poissonLogpdf realPrim lgammaR n lam) := rfl
+
+/-! ### propagation of rounding through the composed formulae (standard model of floating-point arithmetic)
+
+Every operation and library primitive returns its exact result times `1 + δ`, `|δ| ≤ u`.  The theorems bound the error of the
+*composition* by a few units of rounding **of the terms involved** — which is also why cancellation between the terms (`λ ≈ n`) is
+not an error of the formula.  The accuracy `u` of each external primitive (log, lgamma, sqrt) is examined by the harness. -/
+
+/-- **Poisson log-mass**: with `δ₁` the rounding of `log`, `δ₂` of the product (`xlogy`), `δ₄` of `gammaln`, `δ₃`, `δ₅` of the two
+subtractions, the computed value is within `((1+u)⁴ − 1)·(|n log λ| + |λ| + |log Γ(n+1)|)` of the exact log-mass -/
+theorem poisson_logpdf_forward_error (u : ℝ) (hu : 0 ≤ u) (n lam : ℝ) (hn : n ≠ 0) (δ₁ δ₂ δ₃ δ₄ δ₅ : ℝ)
+    (h₁ : |δ₁| ≤ u) (h₂ : |δ₂| ≤ u) (h₃ : |δ₃| ≤ u) (h₄ : |δ₄| ≤ u) (h₅ : |δ₅| ≤ u) :
+    |(((n * Real.log lam * (1 + δ₁) * (1 + δ₂) - lam) * (1 + δ₃) - lgammaR (n + 1) * (1 + δ₄)) * (1 + δ₅))
+        - poissonLogpdf realPrim lgammaR n lam|
+      ≤ ((1 + u) ^ 4 - 1) * (|n * Real.log lam| + |lam| + |lgammaR (n + 1)|) := by
+  rw [poisson_gamma_continuation n lam hn]
+  exact FwdErr.poisson_logpdf_forward_error u hu _ _ _ δ₁ δ₂ δ₃ δ₄ δ₅ h₁ h₂ h₃ h₄ h₅
+
+/-- … i.e. at most `8u` times the sum of the magnitudes of the three terms, for `u ≤ 1/100` -/
+theorem poisson_logpdf_few_units (u : ℝ) (hu : 0 ≤ u) (hu' : u ≤ 1 / 100) (n lam : ℝ) (hn : n ≠ 0) (δ₁ δ₂ δ₃ δ₄ δ₅ : ℝ)
+    (h₁ : |δ₁| ≤ u) (h₂ : |δ₂| ≤ u) (h₃ : |δ₃| ≤ u) (h₄ : |δ₄| ≤ u) (h₅ : |δ₅| ≤ u) :
+    |(((n * Real.log lam * (1 + δ₁) * (1 + δ₂) - lam) * (1 + δ₃) - lgammaR (n + 1) * (1 + δ₄)) * (1 + δ₅))
+        - poissonLogpdf realPrim lgammaR n lam|
+      ≤ 8 * u * (|n * Real.log lam| + |lam| + |lgammaR (n + 1)|) := by
+  rw [poisson_gamma_continuation n lam hn]
+  exact FwdErr.poisson_logpdf_forward_error_units u hu hu' _ _ _ δ₁ δ₂ δ₃ δ₄ δ₅ h₁ h₂ h₃ h₄ h₅
+
+/-- the exact Normal log-density is `−T₁ − T₂` with `T₁ = log(σ√(2π))`, `T₂ = ((x−μ)/(√2 σ))²` -/
+theorem normal_logpdf_terms (x mu sigma : ℝ) :
+    normalLogpdf realPrim Real.pi x mu sigma
+      = -Real.log (sigma * Real.sqrt (2 * Real.pi)) - ((x - mu) / (Real.sqrt 2 * sigma)) ^ 2 := by
+  unfold normalLogpdf
+  simp only [realPrim_sqrt, realPrim_log, sci_2]
+  ring
+
+/-- **Normal log-density**: with `η` the absolute perturbation of the logarithm caused by the rounding of its argument (`|η| ≤ η₀`),
+`δ₁` the rounding of `log`, five roundings on the path of the quadratic term and `δ₂` of the final addition, the computed value is
+within `((1+u)⁶ − 1)·(|T₁| + |T₂|) + (1+u)²·η₀` of the exact log-density -/
+theorem normal_logpdf_forward_error (u : ℝ) (hu : 0 ≤ u) (x mu sigma η η₀ : ℝ) (δ₁ δ₂ ε₁ ε₂ ε₃ ε₄ ε₅ : ℝ) (hη : |η| ≤ η₀)
+    (h₁ : |δ₁| ≤ u) (h₂ : |δ₂| ≤ u) (e₁ : |ε₁| ≤ u) (e₂ : |ε₂| ≤ u) (e₃ : |ε₃| ≤ u) (e₄ : |ε₄| ≤ u) (e₅ : |ε₅| ≤ u) :
+    |((-((Real.log (sigma * Real.sqrt (2 * Real.pi)) + η) * (1 + δ₁)))
+        + (-(((x - mu) / (Real.sqrt 2 * sigma)) ^ 2 * (1 + ε₁) * (1 + ε₂) * (1 + ε₃) * (1 + ε₄) * (1 + ε₅)))) * (1 + δ₂)
+        - normalLogpdf realPrim Real.pi x mu sigma|
+      ≤ ((1 + u) ^ 6 - 1) * (|Real.log (sigma * Real.sqrt (2 * Real.pi))| + |((x - mu) / (Real.sqrt 2 * sigma)) ^ 2|)
+        + (1 + u) ^ 2 * η₀ := by
+  rw [normal_logpdf_terms]
+  exact FwdErr.normal_logpdf_forward_error u hu _ _ η η₀ δ₁ δ₂ ε₁ ε₂ ε₃ ε₄ ε₅ hη h₁ h₂ e₁ e₂ e₃ e₄ e₅
 
 end Pyhf.Props.C04
